@@ -9,3 +9,7 @@ mod c14_float;
 mod c10_parse;
 #[cfg(kani)]
 mod c11_radix_out;
+#[cfg(kani)]
+mod c18_numtraits;
+#[cfg(kani)]
+mod c20_random;
